@@ -6,7 +6,7 @@ PID = "C03"
 RULE = ("triples (A,B,C) of version strings from a weighted token grammar (digit runs incl. 19-40 digits, separators, "
         "modifiers in random case, nb revisions, letters, ignored/non-ASCII characters, modifier collisions), 70% one-edit "
         "neighbours; every ordered pair of the triple is asked through Dewey::new('p'+op+X).matches('p-'+Y) for the four "
-        "operators; non-trivial = the pair's two strings differ and at least one contains a non-digit token")
+        "operators, and two-bound ranges over pairs of the triple incl. equal bounds (law: range = conjunction of its halves); non-trivial = the pair's two strings differ and at least one contains a non-digit token")
 ASSUMPTIONS = ["versions placed in a pattern must not contain '<' '>' or start with '=', versions placed in a package name must not contain '-' (they would change the pattern/name structure, not the version)"]
 FUNCTIONAL = False
 
@@ -21,7 +21,7 @@ def clean(v):
 def generate(rng, tier):
     ntrip = 400 if tier == "quick" else 6000
     cases = []
-    fixed = [("1.0", "1.0.0", "1_0"), ("1.0alpha", "1.0", "1.0nb1"), ("9999999999999999999", "9223372036854775807", "9223372036854775808"),
+    fixed = [("1.2", "1.2", "1.2.0"), ("1.0", "1", "1.0nb1"), ("1.0", "1.0.0", "1_0"), ("1.0alpha", "1.0", "1.0nb1"), ("9999999999999999999", "9223372036854775807", "9223372036854775808"),
              ("", ".", "nb"), ("é", "", "~"), ("1a", "1.0.97", "1_50"), ("1.0PRE1", "1.0rc1", "1.0"),
              ("12345678901234567890123", "12345678901234567890124", "1"), ("1nb99999999999999999999", "1nb0", "1")]
     trips = list(fixed)
@@ -42,11 +42,23 @@ def generate(rng, tier):
                     # pattern holds Y, package holds X: verdict "X op Y"
                     cases.append(Case("dewey.match", [enc("p" + op + vs[y]), enc("p-" + vs[x])],
                                       meta={"group": g, "x": x, "y": y, "op": op, "vx": vs[x], "vy": vs[y]}))
+        # two-bound patterns: the verdict must be the conjunction of the two one-bound verdicts, also when both bounds
+        # are the same version (closed range of one point) or tie (1.0 / 1)
+        for x in "ABC":
+            for (y, z) in (("A", "A"), ("A", "B"), ("B", "A"), ("B", "C"), ("C", "C"), ("C", "B")):
+                for lo in (">", ">="):
+                    for hi in ("<", "<="):
+                        if vs[y] == "" or "<" in vs[y] or ">" in vs[y]:
+                            continue
+                        cases.append(Case("dewey.match", [enc("p" + lo + vs[y] + hi + vs[z]), enc("p-" + vs[x])],
+                                          meta={"group": g, "two": (x, y, lo, z, hi)}))
     return cases
 
 
 def nontrivial(c):
     m = c.meta
+    if "two" in m:
+        return True
     if "vx" not in m:
         return True
     return m["vx"] != m["vy"] and (not m["vx"].isdigit() or not m["vy"].isdigit())
@@ -59,6 +71,15 @@ def laws(cases, obsI):
         if "group" in c.meta and "x" in c.meta:
             groups.setdefault(c.meta["group"], {})[(c.meta["x"], c.meta["y"], c.meta["op"])] = i
     out = []
+    for i, c in enumerate(cases):
+        if "two" in c.meta:
+            x, y, lo, z, hi = c.meta["two"]
+            tab = groups[c.meta["group"]]
+            i1, i2 = tab[(x, y, lo)], tab[(x, z, hi)]
+            if obsI[i1] in ("T", "F") and obsI[i2] in ("T", "F") and obsI[i] in ("T", "F"):
+                want = "T" if (obsI[i1] == "T" and obsI[i2] == "T") else "F"
+                if obsI[i] != want:
+                    out.append({"kind": "two-bounds-is-and", "idxs": [i, i1, i2], "detail": "range verdict %s, halves %s and %s" % (obsI[i], obsI[i1], obsI[i2])})
     for g, tab in groups.items():
         def v(x, y, op):
             o = obsI[tab[(x, y, op)]]
